@@ -32,6 +32,8 @@ mod gen_c13;
 #[cfg(kani)]
 mod c11;
 #[cfg(kani)]
+mod c13;
+#[cfg(kani)]
 mod c15;
 #[cfg(kani)]
 mod c19;
